@@ -7,6 +7,7 @@ import LitexModel.Cdc.Glue
 import LitexProofs.Cdc.Monitor
 import LitexProofs.Stream.Basic
 import LitexProofs.Cdc.PulseSync
+import LitexProofs.Cdc.Capacity
 /-
   C05 — Clock-domain crossings never corrupt, drop, duplicate or reorder data.
 
@@ -173,6 +174,116 @@ theorem afifo_eventually_readable_buffered (k : Nat) (z : α) (hk : 1 ≤ k) (x 
   · left; exact hd'
 
 
+/-! ### The write side: `sink.ready` is exact, progresses, and the requested depth is really available -/
+
+/-- **afifo_writable_exact.**  After every schedule: `sink.ready` is low if and only if exactly `2^k` tokens are
+    outstanding with respect to the consume pointer *as seen through the write-side synchroniser* (`Cw2`, a
+    genuine earlier value of the consume counter).  The FIFO never refuses a token for any other reason
+    (no capacity is lost to the Gray comparison) and never accepts one beyond it. -/
+theorem afifo_writable_exact (k : Nat) (b : Bool) (z : α) (hk : 1 ≤ k) (ins : List (AFIn α)) :
+    let s := runFrom k b z (afInit k z) ins
+    let acc := accepted k b z (afInit k z) ins
+    ∃ C Cw2 : Nat, Cw2 ≤ C ∧ C ≤ acc.length ∧ s.cbin = C % 2 ^ (k + 1) ∧ s.cw2 = gray (Cw2 % 2 ^ (k + 1)) ∧
+      (writable k s = false ↔ acc.length = Cw2 + 2 ^ k) := by
+  intro s acc
+  obtain ⟨g, h, ha, _⟩ := run_init_facts k b z hk ins
+  rw [show acc = g.acc from ha.symm]
+  exact ⟨g.C, g.Cw2, le_trans h.o1 h.o2, le_trans h.o3 (le_trans h.o4 h.o5), h.cbin, h.cw2, writable_exact hk h⟩
+
+/-- **afifo_eventually_writable.**  Mirror image of `afifo_eventually_readable`: take any schedule `x`, then any
+    continuation `y` with at least two write-clock edges (nothing assumed about the read clock, the ratio or the
+    resolutions).  Then `sink.ready` is high, or at least `2^k` tokens have been accepted beyond those handed
+    over during `x` (the storage really is full). -/
+theorem afifo_eventually_writable (k : Nat) (b : Bool) (z : α) (hk : 1 ≤ k) (x y : List (AFIn α))
+    (hy : 2 ≤ writeTicks y) :
+    writable k (runFrom k b z (afInit k z) (x ++ y)) = true ∨
+      (delivered k b z (afInit k z) x).length + 2 ^ k ≤ (accepted k b z (afInit k z) (x ++ y)).length := by
+  have h1 := inv_run k b z hk x _ _ (inv_init k b z)
+  have hnil : (gInit (α := α)).acc = [] := rfl
+  have hd := del_run k b z hk x _ _ (inv_init k b z)
+  rw [hnil] at hd
+  simp only [List.take_nil, List.nil_append] at hd
+  have h2 := inv_run k b z hk (x ++ y) _ _ (inv_init k b z)
+  have ha := acc_run k b z (x ++ y) (afInit k z) gInit
+  rw [hnil] at ha
+  simp only [List.nil_append] at ha
+  have hp := (cw2_progress z hk (gRun k b z (afInit k z) gInit x).C y _ _ h1 (le_refl _)).2.2 hy
+  rw [← gRun_append] at hp
+  cases hw : writable k (runFrom k b z (afInit k z) (x ++ y))
+  · right
+    have he := (writable_exact hk h2).1 hw
+    have hdl : (delivered k b z (afInit k z) x).length ≤ (gRun k b z (afInit k z) gInit x).C := by
+      rw [← hd, List.length_take]
+      have : dcount (runFrom k b z (afInit k z) x) (gRun k b z (afInit k z) gInit x) ≤
+          (gRun k b z (afInit k z) gInit x).C := by unfold dcount; omega
+      omega
+    rw [← ha, he]
+    omega
+  · left; rfl
+
+/-- **afifo_capacity_tight.**  The bound of `afifo_capacity` is reached, for every depth: `2^k` write-clock
+    edges without any read-clock edge accept `2^k` tokens, the next one is refused (`sink.ready` low), and
+    nothing is handed over.  Together with `afifo_capacity`: the capacity is exactly the depth. -/
+theorem afifo_capacity_tight (k : Nat) (b : Bool) (z : α) (hk : 1 ≤ k) (toks : List α) (d : α)
+    (hn : toks.length = 2 ^ k) :
+    accepted k b z (afInit k z) (toks.map wOnly ++ [wOnly d]) = toks ∧
+    delivered k b z (afInit k z) (toks.map wOnly ++ [wOnly d]) = [] ∧
+    writable k (runFrom k b z (afInit k z) (toks.map wOnly)) = false := by
+  obtain ⟨f1, f2, f3, f4⟩ := fill_accepts k b z hk toks _ _ (inv_init k b z) (by simp [gInit])
+    (by simp [gInit, hn])
+  have hi := inv_run k b z hk (toks.map wOnly) _ _ (inv_init k b z)
+  have hCw2 : (gRun k b z (afInit k z) gInit (toks.map wOnly)).Cw2 = 0 := by
+    have := hi.o1; have := hi.o2; omega
+  have hw : writable k (runFrom k b z (afInit k z) (toks.map wOnly)) = false :=
+    (writable_exact hk hi).2 (by rw [f4, hCw2]; simp [gInit, hn])
+  have hacc := acc_run k b z (toks.map wOnly ++ [wOnly d]) (afInit k z) gInit
+  have hsplit : ∀ (u v : List (AFIn α)) (s : AFState α),
+      accepted k b z s (u ++ v) = accepted k b z s u ++ accepted k b z (runFrom k b z s u) v ∧
+      delivered k b z s (u ++ v) = delivered k b z s u ++ delivered k b z (runFrom k b z s u) v := by
+    intro u v
+    induction u with
+    | nil => intro s; simp [accepted, delivered, runFrom]
+    | cons i is ih => intro s; simp [accepted, delivered, runFrom, ih, List.append_assoc]
+  obtain ⟨s1, s2⟩ := hsplit (toks.map wOnly) [wOnly d] (afInit k z)
+  refine ⟨?_, ?_, hw⟩
+  · rw [s1, f1]; simp [accepted, accNow, wce, hw]
+  · rw [s2, f2]; simp [delivered, delNow, wOnly]
+
+/-- Non-vacuity / the statement on depth 4: four tokens go in, the fifth does not. -/
+example : accepted 2 false 0 (afInit 2 0) ([1, 2, 3, 4, 5].map wOnly) = [1, 2, 3, 4] := by decide
+
+/-! ### Constructor arithmetic (`stream.AsyncFIFO.__init__` → Migen `AsyncFIFO.__init__`)
+
+  The constructor does NOT round: `depth=None` means 4, `depth < 4` fails the assertion, and a depth that is not a
+  power of two makes `log2_int(depth, need_pow2=True)` raise.  `afifoCtor` is compared with the real constructor
+  over a grid of requested depths on every run (`call afifo_ctor`). -/
+
+/-- **afifo_ctor_spec.**  The constructor builds a FIFO with `depth_bits = k` exactly when the requested depth
+    (4 when omitted) equals `2^k` with `k ≥ 2`; every other request is refused. -/
+theorem afifo_ctor_spec (depth : Option Nat) (k : Nat) :
+    afifoCtor depth = some k ↔ 2 ≤ k ∧ depth.getD 4 = 2 ^ k := afifoCtor_spec depth k
+
+/-- No rounding: a requested depth that is not a power of two (or is below 4) is refused. -/
+theorem afifo_ctor_refuses (depth : Option Nat) (h : ∀ k, 2 ≤ k → depth.getD 4 ≠ 2 ^ k) :
+    afifoCtor depth = none := by
+  cases e : afifoCtor depth with
+  | none => rfl
+  | some k => exact absurd ((afifoCtor_spec depth k).1 e).2 (h k ((afifoCtor_spec depth k).1 e).1)
+
+/-- **afifo_ctor_capacity.**  Whatever depth the constructor accepts is really available: the FIFO it builds
+    takes exactly that many tokens with the consumer idle (and by `afifo_capacity` never holds more, plus the one
+    word of the output register when buffered). -/
+theorem afifo_ctor_capacity (depth : Option Nat) (b : Bool) (z : α) (k : Nat) (h : afifoCtor depth = some k)
+    (toks : List α) (d : α) (hn : toks.length = depth.getD 4) :
+    accepted k b z (afInit k z) (toks.map wOnly ++ [wOnly d]) = toks ∧
+    afifoCapacity k b = depth.getD 4 + (if b then 1 else 0) := by
+  obtain ⟨hk, hd⟩ := (afifoCtor_spec depth k).1 h
+  exact ⟨(afifo_capacity_tight k b z (by omega) toks d (by rw [hn, hd])).1, by simp [afifoCapacity, hd]⟩
+
+example : afifoCtor none = some 2 ∧ afifoCtor (some 64) = some 6 ∧ afifoCtor (some 2) = none ∧
+    afifoCtor (some 12) = none ∧ afifoCtor (some 0) = none := by decide
+
+
 /-! ### BusSynchronizer (`litex/gen/genlib/cdc.py`)
 
   Schedules are `List BSIn`: per instant which of the two clocks tick (`ti`, `tO`), how the first flop of the
@@ -297,6 +408,41 @@ example :
     let ins : List PSIn := [⟨true, false, false, true⟩, ⟨true, false, false, true⟩,
                             ⟨false, true, false, false⟩, ⟨false, true, false, false⟩, ⟨false, true, false, false⟩]
     psSent ins = 2 ∧ psSeen psInit ins = 0 ∧ psFlight (psRun psInit ins) = 0 := by decide
+
+/-! #### Exact minimum pulse spacing as a function of the clock ratio
+
+  `PBurst R`: at most `R` i-clock edges fall between two o-clock edges (the i clock is at most `R` times faster
+  than the o clock, any phase; `R = 1` covers every o clock that is at least as fast as the i clock).
+  `PGap n`: two pulses are separated by at least `n` pulse-free i-clock edges (pulse period ≥ `n + 1` i-cycles). -/
+
+/-- **pulsesync_spacing.**  Under drift bound `R`, pulses separated by at least `R + 1` pulse-free i-clock edges
+    (pulse period ≥ `R + 2` i-cycles) are each delivered exactly once, whatever the phase, the coincidences and the
+    resolutions. -/
+theorem pulsesync_spacing (R : Nat) (ins : List PSIn) (hb : PBurst R 0 ins) (hg : PGap (R + 1) (R + 1) ins) :
+    psSent ins = psSeen psInit ins + psFlight (psRun psInit ins) ∧ psFlight (psRun psInit ins) ≤ 3 :=
+  pulsesync_partial ins (pspaced_of_gap R ins 0 (R + 1) false (Nat.zero_le _) (by simp) hb hg)
+
+/-- **pulsesync_spacing_tight.**  The bound is exact for every `R`: with one pulse-free i-edge fewer (`PGap R`)
+    there is a schedule inside the same drift bound on which two pulses are sent and none ever comes out
+    (`psTight R`, replayed on the real `PulseSynchronizer` for several `R` on every run). -/
+theorem pulsesync_spacing_tight (R : Nat) :
+    PBurst R 0 (psTight R) ∧ PGap R R (psTight R) ∧ psSent (psTight R) = 2 ∧
+    psSeen psInit (psTight R) = 0 ∧ psFlight (psRun psInit (psTight R)) = 0 := ps_tight R
+
+/-- Non-vacuity of `pulsesync_spacing` (`R = 1`, pulses two pulse-free i-edges apart, both delivered). -/
+example :
+    let p : PSIn := ⟨true, true, false, true⟩
+    let n : PSIn := ⟨true, false, false, false⟩
+    let o : PSIn := ⟨false, true, false, false⟩
+    let ins := [p, n, o, n, p, o, o, o, o]
+    PBurst 1 0 ins ∧ PGap 2 2 ins ∧ psSent ins = 2 ∧ psSeen psInit ins = 2 := by decide
+
+/-- The Monitor's latch strobe under the same spacing rule. -/
+theorem monitor_latch_spacing (w R : Nat) (ins : List MonIn) (hb : PBurst R 0 (ins.map monLatIn))
+    (hg : PGap (R + 1) (R + 1) (ins.map monLatIn)) :
+    psSent (ins.map monLatIn) = monLatches w monInit ins + psFlight (monRun w monInit ins).lat := by
+  rw [mon_latches, mon_lat_run]
+  exact (pulsesync_spacing R (ins.map monLatIn) hb hg).1
 
 /-! ### Common reset (`ClockDomainCrossing(with_common_rst=True)`)
 
